@@ -5,7 +5,7 @@
    `tcheck`: the model reproduces the run and the type information (the tie to the code). *)
 From Coq Require Import List NArith ZArith Bool.
 From VRL Require Import Base.Bytes Base.Value Base.Lit Model.ValueCrud Model.Kind Model.KindCrud Model.Expr Model.Eval
-  Model.EvalInst Model.TypeInfo Model.TypeInfoInst Corr.Core.
+  Model.EvalInst Model.TypeInfo Model.TypeInfoInst Model.TypeDomains Corr.Core.
 Import ListNotations.
 
 Record tcase := mkTCase {
@@ -66,3 +66,6 @@ Definition tmodel_out (c : tcase) :=
   let '(o, s) := model_run c in
   let '(ts, r) := model_types c in
   (o, ev s, md s, map (var_get (vars s)) (t_names c), (td_fal r, norm (td_kind r), norm (td_ret r), norm (tgt ts), norm (mdk ts))).
+
+(* the known class of the first construct of the program that belongs to one (0 = none) *)
+Definition treason (c : tcase) : N := program_reason binop_inst T_inst (t_prog c) (ts0 (t_ek c) (t_mk c)).
